@@ -3,9 +3,10 @@ import json
 
 from checks import lib
 from checks import C07shared as S
+from checks import S3chunks as S3C
 
 PROPERTY = "C07"
-LEAN_MODULES = ["KafVerif.Props.C07", "KafVerif.Model.KafkaDriver"]
+LEAN_MODULES = ["KafVerif.Props.C07", "KafVerif.Model.KafkaDriver", S3C.LEAN_MODULE]
 OBLIGATIONS = [
     "KafVerif.C07.beDec_beEnc",
     "KafVerif.C07.varint64_roundtrip",
@@ -25,12 +26,13 @@ OBLIGATIONS = [
     "KafVerif.C07.parseFooter_segment",
     "KafVerif.C07.sqlOld_loses_timestamp",
     "KafVerif.C07.skeleton_recovers_nothing",
-]
+] + S3C.OBLIGATIONS_C07
 ASSUMPTIONS = [
     "record batches are uncompressed (attributes & 7 = 0); the processors' decoders reject compressed batches by design",
     "CRC-32C is a parameter of the theorems (an executable table-driven function in the driver, checked against hash/crc32 by the correspondence)",
     "field magnitudes: key/value/header lengths, header count and offset delta below 2^30 for the sql decoder (it reads them as 32-bit varints); segment shorter than 2^31 bytes (index positions are int32)",
     "the franz-go kmsg codec (used by the harness to serialise the generated records) is the producers' wire format",
+    S3C.ASSUMPTION,
 ]
 BUILDS = {
     "root": ("root", "./cmd/verif_c07", ["C07"]),
@@ -38,6 +40,8 @@ BUILDS = {
     "sql": ("sql", "./cmd/verif_c07", ["C07"]),
     "skeleton": ("skeleton", "./cmd/verif_c07", ["C07"]),
 }
+# lower seam: the iceberg / sql s3Decoder (getObject + decodeSegment) over the chunking / faulting S3 fake
+BUILDS.update(S3C.DEC_BUILDS)
 LEVEL_TEXT = ("proof: Lean 4 theorems over an executable model of BuildSegment / IndexBuilder / footer / ParseIndex and of the "
               "iceberg, sql and PITR record decoders (round trip decode∘encode = id for every record, batch and segment); "
               "tied to the code by byte-exact correspondence of segment+index bytes and of every decoder's output")
@@ -240,6 +244,14 @@ def run(ck):
                      "op   : %s\nimpl : %s\nmodel: %s" % (res[o][d][:400] if d < len(res[o]) else None,
                                                           res[i][d][:400] if d < len(res[i]) else None,
                                                           res[m][d][:400] if d < len(res[m]) else None))
+    # -- lower seam: Decode of the iceberg / sql s3Decoder fetching these segments from S3 (bodies in several Reads,
+    #    Content-Length set / unset / over-reported, transfers cut mid-body): exactly the records, or an error
+    pick = [k for k in range(len(cases)) if res["built"][k].startswith("built ")]
+    pick = sorted(pick, key=lambda k: -len(res["built"][k]))[:2] + pick[:(6 if ck.quick() else 40)]
+    pick = sorted(set(pick))
+    segs = [S.kv(res["built"][k])["seg"] for k in pick]
+    s3ok = S3C.run_decoders(ck, bins, segs, [S.expected_records(cases[k]["batches"]) for k in pick], S.run_harness)
+    found = found or not s3ok
     if ck.broken and not found:
         hunt(ck, bins)
 
@@ -262,6 +274,14 @@ def replay(ck, path):
     rep = json.load(open(path))
     bins = ck.build_all()
     if bins is None:
+        return
+    if rep.get("harness") == "s3dec":
+        out, _ = S.run_harness(ck, bins[rep["module"] + "_s3"], rep["ops"], "rp")
+        print("  %s" % out[0][:300])
+        ck.case(rep["ops"][0][:200], sample={"op": rep["ops"][0][:200]})
+        ck.cov["distinct_nontrivial"] = max(ck.cov["distinct_nontrivial"], 2)
+        if out[0].split(" | ")[0] != rep.get("want", "err") and out[0].split(" | ")[0] != "err":
+            ck.violation(rep["fingerprint"], rep["what"], {"harness": "s3dec", "module": rep["module"], "ops": rep["ops"], "want": rep.get("want", "err")})
         return
     c = S.parse_build_op(rep["op"])
     res = run_cases(ck, bins, [c], "rp", model=False)
